@@ -450,6 +450,7 @@ pub fn replay_case(case: &Value, mat: Mat) -> Option<Value> {
     let buffered = Arc::new(std::sync::atomic::AtomicU64::new(0));
     let mut appender: Option<Box<dyn Append>> = None;
     let ops = case["ops"].as_array().unwrap();
+    let has_overlap = ops.iter().any(|o| o["op"] == "overlap");
     let fail = |step: usize, what: &str, detail: Value| Some(json!({"step": step, "op": ops[step], "what": what, "detail": detail}));
     for (si, op) in ops.iter().enumerate() {
         match op["op"].as_str().unwrap() {
@@ -461,8 +462,11 @@ pub fn replay_case(case: &Value, mat: Mat) -> Option<Value> {
                     fs::write(world.act(), payload(0, sz, mat.unit)).unwrap();
                 }
             }
-            "build" => {
-                drop(appender.take());
+            "build" | "overlap" => {
+                let overlap = op["op"] == "overlap";
+                // overlap: the successor is built while its predecessor is alive; the predecessor acknowledges one
+                // more record and is dropped (Rolling.tla, Overlap)
+                let predecessor = if overlap { appender.take() } else { drop(appender.take()); None };
                 let trigger: Box<dyn Trigger> = match trig.as_str() {
                     "size" => Box::new(SizeTrigger::new(limit * mat.unit as u64)),
                     "startup" => Box::new(OnStartUpTrigger::new(limit * mat.unit as u64)),
@@ -530,6 +534,19 @@ pub fn replay_case(case: &Value, mat: Mat) -> Option<Value> {
                     Err(pn) => return fail(si, "appender build panicked", json!(pn)),
                 }
                 }
+                if let Some(old) = predecessor {
+                    let (id, sz) = (op["id"].as_i64().unwrap(), op["sz"].as_i64().unwrap());
+                    let msg = payload(id, sz, mat.unit);
+                    match catch(|| old.append(&log::Record::builder().level(log::Level::Info).args(format_args!("{}", msg)).build())) {
+                        Ok(Ok(())) => {}
+                        Ok(Err(e)) => return fail(si, "append through the predecessor failed", json!(e.to_string())),
+                        Err(pn) => return fail(si, "append through the predecessor panicked", json!(pn)),
+                    }
+                    drop(old);
+                    if !decisions.lock().unwrap().is_empty() {
+                        return fail(si, "scripted trigger was not consulted as often as the specification says", Value::Null);
+                    }
+                }
                 // (with background rotation the directory is compared at the end of the history only: appends and
                 // restarts overlap the rotation thread)
                 if !cfg!(feature = "bgrot") || si + 1 == ops.len() {
@@ -539,7 +556,8 @@ pub fn replay_case(case: &Value, mat: Mat) -> Option<Value> {
                     let got = world.observe();
                     let want = norm_expected(&op["disk"], base);
                     if got != want {
-                        return fail(si, "directory after build", json!({"expected": want, "actual": got}));
+                        return fail(si, if overlap { "directory after the hand-over to a successor appender" } else { "directory after build" },
+                                    json!({"expected": want, "actual": got}));
                     }
                 }
             }
@@ -664,6 +682,9 @@ pub fn replay_case(case: &Value, mat: Mat) -> Option<Value> {
             other => return fail(si, "harness: unknown op", json!(other)),
         }
         let bad = bad_len.lock().unwrap();
+        if has_overlap {
+            continue; // (a successor's estimate starts from the size it saw when it opened: exactness is not claimed)
+        }
         if let Some((shown, real)) = bad.first() {
             return fail(si, "size shown to the policy differs from the size on disk", json!({"len_estimate": shown, "metadata_len": real}));
         }
